@@ -141,3 +141,46 @@ fn c_adapter() {
     });
     report(r);
 }
+
+#[test]
+fn c_close_refused() {
+    // real interface: archive created by mla_archive_new, a file left open, then close
+    let finalized = v_u64("finalized", 0) == 1;
+    let r = catch_unwind(|| -> Option<String> {
+        let mut cfg: MLAConfigHandle = null_mut();
+        if mla_config_default_new(&raw mut cfg) as u64 != 0 {
+            return Some("mla_config_default_new failed".to_string());
+        }
+        unsafe { &mut *cfg.cast::<ArchiveWriterConfig>() }.set_layers(Layers::EMPTY);
+        extern "C" fn w(_b: *const u8, l: u32, _c: *mut c_void, o: *mut u32) -> i32 {
+            unsafe { *o = l };
+            0
+        }
+        let mut archive: MLAArchiveHandle = null_mut();
+        if mla_archive_new(&raw mut cfg, Some(w), Some(f_cb), null_mut(), &raw mut archive) as u64 != 0 {
+            return Some("mla_archive_new failed".to_string());
+        }
+        if finalized {
+            // a writer that already is finalized behind a live handle (in-crate access)
+            let wr = unsafe { &mut *archive.cast::<ArchiveWriter<CallbackOutput>>() };
+            if wr.finalize().is_err() {
+                return Some("finalize of an empty archive failed".to_string());
+            }
+        } else {
+            let name = std::ffi::CString::new("f").unwrap();
+            let mut fh: MLAArchiveFileHandle = null_mut();
+            if mla_archive_file_new(archive, name.as_ptr(), &raw mut fh) as u64 != 0 {
+                return Some("mla_archive_file_new failed".to_string());
+            }
+        }
+        let s = mla_archive_close(&raw mut archive) as u64;
+        if s == 0 {
+            return Some("mla_archive_close reported success although it had to refuse".to_string());
+        }
+        if !archive.is_null() {
+            return Some(format!("mla_archive_close failed with status {s:#x} and left the caller's handle set: the archive behind it is already released"));
+        }
+        None
+    });
+    report(r);
+}
